@@ -199,6 +199,31 @@ func sharedRewardRuns(n int, id int) [][]string {
 	return runs
 }
 
+// destroyedThenFundedRuns: blocks in which contracts self-destruct and their addresses are credited
+// afterwards in the same block (the credit lives in the token contract's storage, the account
+// objects are deleted when the block is finalised: several dirty objects whose flush order must
+// not matter), with other value-moving transactions around them.
+func destroyedThenFundedRuns(n int, id int) [][]string {
+	runs := [][]string{}
+	ops := []ledgerops.AbsOp{
+		{Op: "Deploy", A: 1, B: 1, V: 2}, {Op: "Deploy", A: 2, B: 2, V: 1}, {Op: "Deploy", A: 3, B: 3, V: 2},
+		{Op: "SelfDestructFunded", A: 2, B: 1, V: 1}, {Op: "Transfer", A: 3, B: 2, V: 1},
+		{Op: "SelfDestructFunded", A: 1, B: 3, V: 2}, {Op: "SelfDestructFunded", A: 3, B: 2, V: 0},
+		{Op: "Deploy", A: 2, B: 1, V: 1}, {Op: "SelfDestruct", A: 3, B: 1, V: 1}, {Op: "Transfer", A: 1, B: 3, V: 2},
+	}
+	for r := 0; r < n; r++ {
+		w := ledgerops.NewWorld(id)
+		warm(w.St, r, nil)
+		ds := []string{}
+		for _, o := range ops {
+			d, _ := digest(w.Step(nil, o, ledgerops.Amounts[o.V%3], ""))
+			ds = append(ds, d)
+		}
+		runs = append(runs, ds)
+	}
+	return runs
+}
+
 // castThenVerify: a proposer casts a block whose execution hits the wall-clock cut-off
 // (situation "casting", 3 s); the transaction list it reports, executed by a verifier on a fresh
 // state of the same parent, must give the proposer's state root, receipts and evicted list.
@@ -228,6 +253,7 @@ func main() {
 	scratch := flag.String("scratch", "", "")
 	shared := flag.Int("shared-reward", 0, "runs of the shared-reward-account input (0: skip)")
 	cast := flag.Bool("cast", false, "run the casting cut-off scenario (takes > 3 s)")
+	destroyed := flag.Int("destroyed-funded", 0, "runs of the destroyed-then-funded input (0: skip)")
 	flag.Parse()
 	if *scratch == "" {
 		vutil.Fatalf("--scratch required")
@@ -297,6 +323,13 @@ func main() {
 			"runs": runs, "transferOk": []bool{}})
 		nIn++
 		nRuns += *shared
+	}
+	if *destroyed > 0 {
+		runs := destroyedThenFundedRuns(*destroyed, 11)
+		tr.Emit(map[string]interface{}{"event": "Replicas", "class": "destroyed-then-funded", "bal": 0, "targets": []target{},
+			"runs": runs, "transferOk": []bool{}})
+		nIn++
+		nRuns += *destroyed
 	}
 	if *cast {
 		r := castThenVerify(9)
